@@ -243,7 +243,9 @@ class Definitions(WObject):
         container = SchemaCollection(self)
         for t in (t for t in self.types if t.local()):
             for root in t.contents():
-                baseurl = root.get("url") or self.url
+                # A schema of a document that wsdl:imports us in a cycle (still
+                # loading, so built here) keeps that document's base URL.
+                baseurl = root.get("url") or t.definitions.url
                 schema = Schema(root, baseurl, self.options, loaded_schemata, container)
                 container.add(schema)
         if not container:
